@@ -669,8 +669,10 @@ func (r *ringDescriber) getClusterPeerInfo(localHost *HostInfo) ([]*HostInfo, er
 		host, err := r.session.hostInfoFromMap(row, &HostInfo{port: r.session.cfg.Port})
 		if err != nil {
 			return nil, err
-		} else if !isValidPeer(host) {
-			// If it's not a valid peer
+		} else if !isValidPeer(host) || host.invalidConnectAddr() {
+			// If it's not a valid peer, or a peer without any address to
+			// connect to (rpc_address unspecified and no peer address):
+			// the ring refuses such a host with a panic
 			r.session.logger.Printf("Found invalid peer '%s' "+
 				"Likely due to a gossip or snitch issue, this host will be ignored", host)
 			continue
